@@ -87,7 +87,7 @@ func handleEnumerateBlobs(rw http.ResponseWriter, req *http.Request, storage blo
 	needsComma := false
 	deadline := time.Now().Add(time.Duration(waitSeconds) * time.Second)
 	after := ""
-	for loop && (waitSeconds == 0 || time.Now().After(deadline)) {
+	for loop && (waitSeconds == 0 || time.Now().Before(deadline)) {
 		if waitSeconds == 0 {
 			loop = false
 		}
